@@ -49,6 +49,26 @@ def tie_world(plan, seed):
             ring_b = sorted(h3.hex_ring(h3.h3_to_parent(hub, res), 1))
             for i, b in enumerate(spec["bases"]):
                 b["cell"] = h3.h3_to_center_child(ring_b[i % len(ring_b)], 15)
+    if spec["stations"] and r.random() < 0.35:
+        # scarce world: one station, one plug of one type, most vehicles at the hub: they arrive and queue in the same step
+        # (equal queue stamps), and every freed plug is contested
+        st = spec["stations"][0]
+        st["plugs"] = [{"charger": r.choice(["DCFC", "LEVEL_2", "DC20"]), "count": 1, "on_shift": True}]
+        spec["stations"] = [st]
+        for b in spec["bases"]:
+            if b.get("station") and b["station"] != st["id"]:
+                b["station"] = None
+        if spec.get("fleets"):
+            for f in spec["fleets"].values():
+                f["stations"] = [x for x in f["stations"] if x == st["id"]]
+        if spec.get("prices"):
+            spec["prices"] = None
+        hub = spec["vehicles"][0]["cell"] if spec["vehicles"] else world.CENTER
+        for v in spec["vehicles"]:
+            if v["mech"] == "bev" and r.random() < 0.8:
+                v["cell"] = hub
+                v["soc"] = r.choice([0.05, 0.08, 0.1])
+        return plan
     for s in spec["stations"]:
         have = {p["charger"] for p in s["plugs"]}
         for k in ("DCFC", "DC150", "LEVEL_2"):
